@@ -38,7 +38,10 @@ RULE = (
     "chosen adaptively while the synchronous resolver runs (answer, no-data, CNAME chains incl. too long and looping, "
     "NXDOMAIN valid and with answer, YXDOMAIN, SERVFAIL, other rcodes, non-responses, FormError/EOF/OSError/"
     "NotImplementedError families, truncation, timeout, other exceptions; durations around the timeout and the lifetime), "
-    "recorded and replayed against the async resolver and the model; plus stand-alone candidate-name and chaining cases; "
+    "recorded and replayed against the async resolver and the model; option values incl. falsy ones (lifetime/timeout 0), "
+    "name/type/class as text, nameservers as address strings (Do53 enrichment, per-server ports), source address/port, "
+    "one name asked for types X/Y/X; plus stand-alone candidate-name, chaining and _compute_timeout (clock also running "
+    "backwards) cases; "
     "a case is non-trivial if its key (configuration, requests, script) is new and it issued at least one query or cache probe"
 )
 TRUSTED_BASE = [
@@ -47,8 +50,9 @@ TRUSTED_BASE = [
     "return only responses to the request - the latter is C18)",
 ]
 ASSUMPTIONS = [
-    "sync = async is established by the tie only: identical decision traces on the same scripts, and the two resolve bodies "
-    "are compared structurally at run time (equal modulo await / backend.sleep / async_query(backend=)): partial",
+    "sync = async: async_eq_sync is about the coroutine model of the asyncio loop driven by an exact-timer event loop; the "
+    "model is tied to asyncresolver.py by identical traces/transport parameters/payloads on the same scripts and by the "
+    "run-time structural comparison of the two resolve bodies (equal modulo await / backend.sleep / async_query(backend=))",
     "rotate off; the clock is monotone (the two 'time went backwards' branches of _compute_timeout are not modelled)",
     "a nameserver returns a response whose question is the request's (C18); responses are QueryMessages",
     "broken-server exclusion is per candidate name: the code rebuilds the server list for each candidate (DESIGN §7 C16)",
@@ -58,7 +62,7 @@ ASSUMPTIONS = [
     "(ConstsC16.clipSleep); ends_within_lifetime is an obligation about that value; the unclipped variant of the model is retained",
 ]
 LEVEL = {
-    "text": "Lean 4 theorems (lean/Props/C16.lean, 27 statements, no sorry) over an executable model of _get_qnames_to_try, "
+    "text": "Lean 4 theorems (lean/Props/C16.lean, 30 statements, no sorry) over an executable model of _get_qnames_to_try, "
             "_Resolution.{next_request,next_nameserver,query_result}, _compute_timeout, the Resolver.resolve loop on an "
             "integer-millisecond clock driven by an arbitrary finite script of per-query outcomes with durations, "
             "QueryMessage.resolve_chaining and the cache as a timed map. resolve = spec for every script, where spec is an "
@@ -72,8 +76,11 @@ LEVEL = {
             "monitor accepted by every run); search/ndots candidate order; bounded CNAME chain with exact minimum TTL and negative "
             "TTL from the closest SOA; the cache changes only under (candidate,type,class)/(candidate,ANY,class). Tied to the code "
             "by scripted-nameserver correspondence on a virtual clock (sync and asyncio; model and spec both run in the driver).",
-    "note": "sync = async is tie-only: identical decision traces on every script plus a structural comparison of the two resolve "
-            "bodies (equal modulo await / backend.sleep / async_query(backend=)). Trusted: Lean kernel, statements in "
+    "note": "sync = async: the asyncio resolve loop is modelled separately as a coroutine with its two suspension points "
+            "(Model/ResolverAsync.lean) and proved to produce, on an event loop whose timers fire on time, exactly the synchronous "
+            "event sequence, result and final state (async_eq_sync); that this coroutine model is asyncresolver.py is the tie "
+            "(identical traces, transport parameters and exception payloads on every script, plus a run-time structural "
+            "comparison of the two resolve bodies). Trusted: Lean kernel, statements in "
             "lean/Props/C16.lean and the definition of spec in lean/Proofs/ResolverSpec.lean, harness/props/C16.py + "
             "harness/vclock.py, harness/extract_C16.py.",
     "technique": "Lean 4 proof (simulation of the state machine by an independent specification, state-machine invariants, "
@@ -1019,7 +1026,8 @@ def eval_case(ctx: Ctx, c: dict, gen=None):
                 impl = f"ok {to_ms(t)}"
             except dns.resolver.LifetimeTimeout as e:
                 impl = "LifetimeTimeout"
-                if to_ms(e.kwargs.get("timeout", 0)) != c["now"] - c["start"]:
+                moved = c["now"] - c["start"]
+                if to_ms(e.kwargs.get("timeout", 0)) != (moved if moved < -1000 else max(moved, 0)):  # a small step back counts as 0
                     ctx.fail("C16/timeout/reported-elapsed", f"LifetimeTimeout reports {e.kwargs.get('timeout')} s elapsed, the clock moved {c['now'] - c['start']} ms since start", rep)
             except BaseException as e:
                 impl = "FOREIGN " + type(e).__name__
